@@ -84,3 +84,42 @@ def frame(system: str, q: Sequence[Any]) -> tuple[list[Vec], list[Any]]:
         es.append(tuple(sp.simplify(x / h) for x in d))
         hs.append(h)
     return es, hs
+
+
+# ---- differential operators by the chain rule (no curvilinear formula is typed in) ------------------
+
+
+class ChainRule:
+    """Cartesian gradient / divergence / curl of fields given in curvilinear coordinates q, expressed
+    in the local orthonormal frame.  d/dx_i = sum_k (dq_k/dx_i) d/dq_k with the inverse Jacobian of
+    the position map."""
+
+    def __init__(self, system: str, q: Sequence[Any]):
+        self.system, self.q = system, tuple(q)
+        pos = position(system, q)
+        J = sp.Matrix(3, 3, lambda i, k: sp.diff(pos[i], q[k]))  # dx_i / dq_k
+        self.Jinv = sp.simplify(J.inv())  # dq_k / dx_i  at [k, i]
+        self.e, self.h = frame(system, q)
+
+    def ddx(self, f: Any, i: int) -> Any:
+        return sum(self.Jinv[k, i] * sp.diff(f, self.q[k]) for k in range(3))
+
+    def to_cart(self, F: Sequence[Any]) -> Vec:
+        F = pad(F)
+        return tuple(sum(F[j] * self.e[j][i] for j in range(3)) for i in range(3))
+
+    def project(self, V: Sequence[Any]) -> Vec:
+        return tuple(sum(V[i] * self.e[j][i] for i in range(3)) for j in range(3))
+
+    def grad(self, f: Any) -> Vec:
+        return self.project(tuple(self.ddx(f, i) for i in range(3)))
+
+    def div(self, F: Sequence[Any]) -> Any:
+        C = self.to_cart(F)
+        return sum(self.ddx(C[i], i) for i in range(3))
+
+    def curl(self, F: Sequence[Any]) -> Vec:
+        C = self.to_cart(F)
+        cc = (self.ddx(C[2], 1) - self.ddx(C[1], 2), self.ddx(C[0], 2) - self.ddx(C[2], 0),
+            self.ddx(C[1], 0) - self.ddx(C[0], 1))
+        return self.project(cc)
